@@ -8,6 +8,8 @@ import (
 	"github.com/aldas/go-modbus-client/packet"
 )
 
+const tcpMBAPHeaderLen = 6
+
 // ModbusTCPAssembler assembles read data into complete packets and calls ModbusHandler with assembled packet
 type ModbusTCPAssembler struct {
 	Handler  ModbusHandler
@@ -37,7 +39,7 @@ func (m *ModbusTCPAssembler) handleNextPacket(ctx context.Context) (response []b
 		return nil, false // wait for more data to arrive
 	}
 	if n == 0 {
-		// received data can not be Modbus TCP packet. As it is unknown where the next packet would start we discard everything.
+		// received data can not be Modbus TCP packet.
 		// Reply is addressed with values found at the header positions so client can match it to what it sent.
 		data := m.received.Bytes()
 		errResp := packet.ErrorResponseTCP{
@@ -46,7 +48,18 @@ func (m *ModbusTCPAssembler) handleNextPacket(ctx context.Context) (response []b
 			Function:      data[7] &^ 0x80,
 			Code:          err.(*packet.ErrorParseTCP).Packet.Code,
 		}
-		m.received.Reset()
+		if data[2] == 0x0 && data[3] == 0x0 {
+			// protocol id is valid so length field tells where this (rejected) packet ends. Discard only that packet so
+			// requests following it in the stream are still served.
+			packetLen := tcpMBAPHeaderLen + int(binary.BigEndian.Uint16(data[4:6]))
+			if m.received.Len() < packetLen {
+				return nil, false // wait for rest of the packet to arrive
+			}
+			m.received.Next(packetLen)
+		} else {
+			// it is unknown where the next packet would start - discard everything.
+			m.received.Reset()
+		}
 		return errResp.Bytes(), true
 	}
 	if m.received.Len() < n {
